@@ -625,6 +625,8 @@ struct State {
     short_writes: bool,
     /// Write::write takes at most this many bytes per call (0 = everything)
     write_limit: usize,
+    /// `Read::read` hands out at most this many bytes per call (0 = no limit)
+    read_limit: usize,
     /// set by `enter2` for the call in progress
     short_write_now: bool,
     fault_first_fired_at: Option<u64>,
@@ -731,6 +733,13 @@ impl SimFs {
     /// Files accept at most `limit` bytes per `Write::write` call and report how many they took -
     /// what `std::io::Write` allows any writer to do (a full pipe, a quota, a network file system).
     /// 0 switches the limit off. `append` (raindb's own trait method) always takes everything.
+    /// `Read::read` on files of this file system returns at most `limit` bytes per call - as the
+    /// contract of `Read` allows ("it is not an error if the returned value is smaller than the
+    /// buffer size"). `read_from` is not limited.
+    pub fn set_read_limit(&self, limit: usize) {
+        self.shared.state.lock().read_limit = limit;
+    }
+
     pub fn set_write_limit(&self, limit: usize) {
         self.shared.state.lock().write_limit = limit;
     }
@@ -1001,6 +1010,8 @@ impl SimFile {
 
 impl Read for SimFile {
     fn read(&mut self, buf: &mut [u8]) -> io::Result<usize> {
+        let limit = self.fs.shared.state.lock().read_limit;
+        let buf = if limit > 0 && buf.len() > limit { &mut buf[..limit] } else { buf };
         let n = self.read_at(buf, self.cursor)?;
         self.cursor += n as u64;
         Ok(n)
